@@ -31,7 +31,7 @@ TOL = {
     "compose_cys": 1e-13, "compose_scy": 1e-13, "norm_sph": 1e-14, "norm_cyl": 1e-14,
     "phi_vs_atan2": 1e-15, "theta_vs_acos": 1e-9, "identity": 0.0,
     "orth": 1e-14, "det": 1e-14, "zyz": 1e-14, "deg": 1e-12, "deg_same_numbers": 1e-14, "deg_integer_arrays": 1e-14, "rotpts": 1e-13, "rotdist": 1e-13, "rotpts@int_forms": 1e-13, "int_forms": 0.0, "int_forms@large": 1e-15, "rotpts@float32": 1e-6,
-    "pair_rot": 1e-12, "centroid_rot": 1e-12, "pair_tr": 1e-12, "centroid_tr": 1e-12, "rigid_pos": 1e-12,
+    "single_point_equals_array_of_one": 1e-15, "rigid_cluster_moves_like_its_spheres": 1e-12, "pair_rot": 1e-12, "centroid_rot": 1e-12, "pair_tr": 1e-12, "centroid_tr": 1e-12, "rigid_pos": 1e-12,
     "tr3": 0.0, "rot3": 0.0,
 }
 
@@ -212,6 +212,30 @@ def _run_pts(case):
         flags["scalar_z_c2y"] = bool(cs.shape == (3, len(x)) and np.all(cs[2] == zc) and np.array_equal(cs[:2], np.asarray(c2y([x, y, np.full(len(x), zc)]))[:2]))
         yc = np.asarray(y2c([cyl[0], cyl[1], zc]))
         flags["scalar_z_y2c"] = bool(yc.shape == (3, len(x)) and np.all(yc[2] == zc))
+    # every conversion takes a single point given as three scalars, and arrays of any shape with one shared scalar coordinate (F100)
+    ok_forms, worst_f = True, 0.0
+    for i in (0, len(x) // 2, len(x) - 1):
+        vals = (float(x[i]), float(y[i]), float(z[i]))
+        for dst in ("cylindrical", "spherical"):
+            try:
+                one = np.asarray(ftf("cartesian", dst)(list(vals)), dtype=float).ravel()
+                many = np.asarray(ftf("cartesian", dst)(np.array([[vals[0]], [vals[1]], [vals[2]]], dtype=float)), dtype=float).ravel()
+                worst_f = max(worst_f, float(np.abs(one - many).max() / max(1.0, float(np.abs(many).max()))))
+                back = np.asarray(ftf(dst, "cartesian")([float(v) for v in one]), dtype=float).ravel()
+                if back.shape != (3,):
+                    ok_forms = False
+            except Exception:
+                ok_forms = False
+    try:
+        g = np.arange(6, dtype=float).reshape(2, 3) + 1.0
+        cy_ = np.asarray(ftf("cartesian", "cylindrical")([g, g[::-1] * 0.5, 2.5]))
+        ca_ = np.asarray(ftf("cylindrical", "cartesian")([g, g * 0.1, -1.5]))
+        ok_forms &= bool(cy_.shape == (3, 2, 3) and np.all(cy_[2] == 2.5) and np.allclose(cy_[0], np.hypot(g, g[::-1] * 0.5), rtol=1e-15)
+                         and ca_.shape == (3, 2, 3) and np.all(ca_[2] == -1.5) and np.allclose(ca_[0], g * np.cos(g * 0.1), rtol=1e-15))
+    except Exception:
+        ok_forms = False
+    flags["scalar_and_2d_forms_accepted"] = bool(ok_forms)
+    resid["single_point_equals_array_of_one"] = fnum(worst_f)
     try:
         ftf("cartesian", "toroidal")
         flags["unknown_system_raises"] = False
@@ -395,6 +419,19 @@ def _run_comp(case):
     flags["radii_kept"] = bool(np.array_equal([s.r for s in _leaves(rot)], [s.r for s in _leaves(comp)]) and
                                np.array_equal([s.r for s in _leaves(tr)], [s.r for s in _leaves(comp)]))
     flags["type_kept"] = bool(type(rot) is type(comp) and type(tr) is type(comp))
+    # a rigid cluster is a composite like any other: translating / rotating it moves the spheres it stands for (F101)
+    try:
+        rc = RigidCluster(Spheres(sph, warn=False), translation=[float(v) for v in rng.normal(size=3) * scale], rotation=[float(v) for v in rng.uniform(-3, 3, 3)])
+        base_c = np.array([s_.center for s_ in rc.scatterers], dtype=float)
+        moved = np.array([s_.center for s_ in rc.translated(t).scatterers], dtype=float)
+        turned = rc.rotated(ang)
+        tc = np.array([s_.center for s_ in turned.scatterers], dtype=float)
+        comr = base_c.mean(0)
+        expr = comr + (Rref @ (base_c - comr).T).T
+        resid["rigid_cluster_moves_like_its_spheres"] = fnum(max(float(np.abs(moved - (base_c + t)).max() / (np.abs(base_c).max() + np.abs(t).max())),
+                                                                 float(np.abs(tc - expr).max() / (np.abs(expr).max() + scale))))
+    except Exception:
+        flags["rigid_cluster_can_be_moved"] = False
     return {"resid": resid, "flags": flags, "shape": shape, "n": n}
 
 
